@@ -1,6 +1,7 @@
 """Shared by C01 / C02: (language, model) pairs from Gen_Graph replayed through AttackGraph generation."""
 C01_COMPONENTS = {'edges', 'parents_converse', 'timeout', 'recursion', 'exception', 'child_outside_graph',
-                  'parent_outside_graph'}
+                  'parent_outside_graph', 'valid_model_rejected'}
+OTHER = {'lg_prediction', 'language_graph_raises'}
 
 
 def is_c01(d):
@@ -8,11 +9,11 @@ def is_c01(d):
 
 
 def is_c02(d):
-    return d.get('component') not in C01_COMPONENTS and d.get('component') != 'lg_prediction'
+    return d.get('component') not in C01_COMPONENTS and d.get('component') not in OTHER
 
 
 def is_c15(d):
-    return d.get('component') == 'lg_prediction'
+    return d.get('component') in ('lg_prediction', 'language_graph_raises')
 
 
 QUICK_PLAN = [('LSet', 4, {}), ('LTrans', 4, {}), ('LVar', 4, {}), ('LDef', 3, {}), ('LInh', 3, {}), ('LDup', 3, {}),
@@ -28,3 +29,9 @@ def run_plan(run, keep, quick):
         env.update(extra)
         run.gen_replay('Gen_Graph', 'Gen_Graph.cfg', 'harness.replay_graph', {'langs': langs}, env=env,
                        timeout=600 if quick else 3000, name='models of %s to depth %d' % (lang, depth), keep=keep)
+    # random well-formed languages from the language construction machine, each with a random model
+    n = 150 if quick else 6000
+    run.gen_replay('LangGen', 'LangGen.cfg', 'harness.replay_graph', {'langs': {}}, env={'VERIF_DEPTH': 30},
+                   simulate=10 ** 9, depth=30, max_cases=n, workers=12, timeout=300 if quick else 3000,
+                   name='LangGen: %d random well-formed languages (<= 4 types with inheritance, <= 5 associations incl. '
+                        'shared names, variables, every step kind, grown expressions) x random models' % n, keep=keep)
